@@ -1159,7 +1159,7 @@ def run(chk):
     # DEV fallback (round 2): proposed entries of build/kf-C17.json that are not yet in known_findings.json
     # (newtype-builtin-name). The lead drops these four lines after merging.
     kf = os.path.join(vlib.VERIF, "build", "kf-C17.json")
-    if os.path.exists(kf):
+    if os.path.exists(kf) and os.environ.get("VERIF_KF_DEV"):  # development only: proposals not yet merged into known_findings.json
         have = {f.get("id") for f in chk.findings}
         chk.findings = list(chk.findings) + [f for f in json.load(open(kf)) if f.get("id") not in have]
     known_ids = {f["id"] for f in chk.findings if f.get("status") == "known"}
